@@ -56,14 +56,3 @@ Example C08_examples :
   /\ spec_find es [x72;x61;x7a] = None                                                    (* raz: too short *)
   /\ spec_find es [x72;x61;x7a;x6f;x6e;x78] = None.                                       (* razonx *)
 Proof. vm_compute. repeat split. Qed.
-
-(* ---- the tie to the code: the four comparers of lang.c as TRANSLATED from /repo's current source on
-   this run (Gen/CFuns.v: `char*` walks as list suffixes, for(;;)/break as a fuelled loop), assembled as
-   get_comparer assembles them with the prefix length the wrappers pass, compute the mirror comparer
-   that C08_accept_iff is about: for EVERY key without NUL, EVERY word, either signedness of char, and
-   any fuel exceeding both lengths by two (None would mean the loop did not terminate within the fuel) *)
-Theorem C08_code_tie : forall sgn L key elm fuel, no_nul key ->
-  (length key + 2 <= fuel)%nat -> (length elm + 2 <= fuel)%nat ->
-  c_comparer fuel sgn L key elm = Some (comparer sgn L key elm).
-Proof. exact tie_comparer. Qed.
-Print Assumptions C08_code_tie.
